@@ -8,6 +8,7 @@
  R5 owned private state is written only by its owning class family
 """
 import ast
+import re
 
 from ..loader import AnalysisError, dotted, ClassInfo
 from ..astutil import walk_own, calls_in, norm, Defs, leaves, stmt_of, kwarg, need, returns_of, expand
@@ -217,6 +218,12 @@ def rule_r3(p, res):
     gt = p.own_method("Landmarkable", "landmarks")
     r.instance(gt)
     r.check(norm(returns_of(gt.node)[0].value) == "self._landmarks", gt, gt.node, "the landmarks getter returns the owned manager")
+    ggt = cfgmod.build(gt.node)
+    for a_, st_, v_ in self_attr_stores(gt.node):
+        if a_ == "_landmarks":
+            gs_ = [(str(norm(t_)), pol) for t_, pol in ggt.guards(st_)]
+            r.check(gs_ in ([("self._landmarks is None", True)], [("self._landmarks is not None", False)]), gt, st_, "the landmarks getter replaces the manager under %s: a manager may only be created "
+                    "when there is none (`is None`); a truthiness test also replaces an *empty* manager, orphaning every handle taken earlier" % gs_, {"lazy_guard": gs_})
 
 
 def rule_r6(p, res):
@@ -368,7 +375,55 @@ def rule_r5(p, res):
         raise AnalysisError("C06.R5: only %d writes of owned attributes found (floor 12)" % n_writes)
 
 
-RULES = [rule_r1, rule_r2, rule_r3, rule_r4, rule_r5, rule_r6]
+def rule_r7(p, res):
+    r = res.rule("C06.R7", "a `copy` option is honoured whatever the other flags say: the statement that copies the argument is guarded by `copy` alone")
+    n = 0
+    for f in p.all_functions():
+        if "copy" not in f.params:
+            continue
+        dflt = f.defaults()
+        flags = {q for q in f.params if q != "copy" and isinstance(dflt.get(q), ast.Constant) and isinstance(dflt[q].value, bool)}
+        if not flags:
+            continue
+        g = None
+        for st in walk_own(f.node):
+            if isinstance(st, ast.Assign) and isinstance(st.targets[0], ast.Name) and st.targets[0].id in f.params and isinstance(st.value, ast.Call) \
+                    and ((isinstance(st.value.func, ast.Attribute) and st.value.func.attr == "copy" and norm(st.value.func.value) == st.targets[0].id)
+                         or ((dotted(st.value.func) or "") in ("np.array", "numpy.array") and st.value.args and norm(st.value.args[0]) == st.targets[0].id)):
+                g = g or cfgmod.build(f.node)
+                gs = [(str(norm(t_)), pol) for t_, pol in g.guards(st)]
+                if not any(t_ == "copy" for t_, pol in gs):
+                    continue
+                n += 1
+                r.instance(f)
+                others = [(t_, pol) for t_, pol in gs if t_ != "copy" and any(re.search(r"\b%s\b" % q, t_) for q in flags)]
+                r.check(not others, f, st, "%s copies `%s` only under %s: with that flag set the other way the `copy` option is silently ignored and the object keeps the caller's array"
+                        % (f.short, st.targets[0].id, others), {"function": f.short, "guards": gs})
+    if n < 2:
+        raise AnalysisError("C06.R7: only %d guarded copies of arguments found (floor 2)" % n)
+    # a rebuilt object that is handed part of the receiver's own state (self.mask, self.trilist ...) must let the constructor copy it
+    m = 0
+    for c in p.classes.values():
+        f = c.methods.get("from_vector")
+        if f is None:
+            continue
+        for k in calls_in(f.node):
+            tgt = p.resolve_expr(f.module, k.func) if isinstance(k.func, (ast.Name, ast.Attribute)) else None
+            if not isinstance(tgt, ClassInfo):
+                continue
+            shared = [a_ for a_ in list(k.args) + [kw.value for kw in k.keywords if kw.arg != "copy"] if isinstance(a_, ast.Attribute) and isinstance(a_.value, ast.Name) and a_.value.id == f.params[0]]
+            if not shared:
+                continue
+            m += 1
+            r.instance(f)
+            cp = kwarg(k, "copy")
+            r.check(cp is None or (isinstance(cp, ast.Constant) and cp.value is True), f, k, "%s rebuilds the object with `%s` while handing it `%s` of the receiver: with copying switched off the new object "
+                    "shares that state with the one from_vector was called on" % (f.short, norm(k)[:60], norm(shared[0])), {"rebuild": f.short, "shared": norm(shared[0])})
+    if m < 2:
+        raise AnalysisError("C06.R7: only %d rebuilding from_vector methods that pass receiver state found (floor 2)" % m)
+
+
+RULES = [rule_r1, rule_r2, rule_r3, rule_r4, rule_r5, rule_r6, rule_r7]
 
 WITNESSES = [
     Witness("C06.W1", "menpo/landmark/base.py", "LandmarkManager.copy", "for k, v in new._landmark_groups.items():\n        new._landmark_groups[k] = v.copy()", "pass",
@@ -393,4 +448,16 @@ WITNESSES += [
     Witness("C06.W12", "menpo/model/linear.py", "LinearVectorModel.components", "np.copyto(self._components, value, casting='safe')", "self._components = value",
             rule="C06.R6", construct="LinearVectorModel.components", note="seeded change R3-C06-C"),
     Witness("C06.T2", "menpo/model/linear.py", "LinearVectorModel.components", "np.copyto(self._components, value, casting='safe')", "self._components = value.copy()", kind="T", note="not identical behaviour (rebinds) but still an owned copy: the rule must accept it"),
+]
+
+WITNESSES += [
+    Witness("C06.W13", "menpo/landmark/base.py", "", "        if self._landmarks is None:\n            self._landmarks = LandmarkManager()", "        if not self._landmarks:\n            self._landmarks = LandmarkManager()",
+            rule="C06.R3", construct="Landmarkable.landmarks", note="seeded change R4-C06-C"),
+    Witness("C06.W14", "menpo/transform/homogeneous/affine.py", "Affine._set_h_matrix", "    if copy:\n        value = value.copy()", "        if copy:\n            value = value.copy()",
+            rule="C06.R7", construct="Affine._set_h_matrix", note="seeded change R4-C06-A"),
+]
+
+WITNESSES += [
+    Witness("C06.W15", "menpo/image/masked.py", "MaskedImage.from_vector", "MaskedImage(image_data, mask=self.mask)", "MaskedImage(image_data, mask=self.mask, copy=False)",
+            rule="C06.R7", construct="MaskedImage.from_vector", note="seeded change R4-C06-B"),
 ]
